@@ -30,6 +30,11 @@ type Act struct {
 	Kind string // confirm | refute | resuspect | dead | leave | rejoin
 	From int    // confirm/resuspect/dead: peer index; -1 original accuser; -2 local node; -3 the subject; -4 unknown name
 	Old  bool   `json:",omitempty"` // confirm / dead / leave at an older incarnation (must be ignored)
+	// Newer: a confirmation that names a NEWER incarnation of the subject than the node holds (the confirmer has seen a
+	// refutation the node has not). It is a confirmation like any other; whichever incarnation the node goes on to record,
+	// the suspicion must still run out on schedule. Only generated as the last act (what later acts mean would depend on
+	// the incarnation the implementation chose to keep).
+	Newer bool `json:",omitempty"`
 }
 
 type Plan struct {
@@ -125,6 +130,9 @@ func genPlan(t *rapid.T) Plan {
 			a.Old = rapid.IntRange(0, 2).Draw(t, "oldd") == 0
 		}
 		p.Script = append(p.Script, a)
+	}
+	if n := len(p.Script); n > 0 && p.Script[n-1].Kind == "confirm" && !p.Script[n-1].Old {
+		p.Script[n-1].Newer = rapid.Bool().Draw(t, "newer")
 	}
 	return p
 }
@@ -358,8 +366,15 @@ func run(pl Plan) (res vfx.Result) {
 				}
 				inc = curInc - 1
 			}
+			newer := a.Kind == "confirm" && a.Newer && suspected && !isDead
+			if newer {
+				inc = curInc + 1
+				labels["confirmation-at-newer-incarnation"] = true
+			}
 			p.Net.SendFrom(src, p.Addr(), p.Outer(puppet.Claim{Kind: "suspect", Node: "x", Inc: inc, From: from}.Leaf()))
 			switch {
+			case newer:
+				countConfirm()
 			case isDead || inc != curInc:
 				// a suspicion about a dead/left record, or at an older incarnation, is ignored
 			case suspected:
